@@ -80,14 +80,18 @@ func (sb *switchboard) send(data []byte, assignedConn *net.Conn) (n int, err err
 	// The senders of a session take their turns at the user's rate limit one at a time. A turn reserves its tokens
 	// at once and cannot hand them back: if all senders reserved together, a session closed while they wait would
 	// leave the user's other sessions waiting behind tokens for frames that are never sent. One at a time, and
-	// not at all once the switchboard is broken, at most one frame's worth is lost.
-	sb.txTurn <- struct{}{}
-	if atomic.LoadUint32(&sb.broken) == 1 {
+	// not at all once the switchboard is broken, at most one frame's worth is lost. An unlimited valve has nothing to
+	// wait for and nothing to lose: its senders do not queue here (handing the turn from one to the next would
+	// make a busy session send one frame per goroutine wake-up, however many cores and connections it has).
+	if _, unlimited := sb.valve.(*UnlimitedValve); !unlimited {
+		sb.txTurn <- struct{}{}
+		if atomic.LoadUint32(&sb.broken) == 1 {
+			<-sb.txTurn
+			return 0, errBrokenSwitchboard
+		}
+		sb.valve.txWait(len(data))
 		<-sb.txTurn
-		return 0, errBrokenSwitchboard
 	}
-	sb.valve.txWait(len(data))
-	<-sb.txTurn
 	if atomic.LoadUint32(&sb.broken) == 1 {
 		return 0, errBrokenSwitchboard
 	}
